@@ -111,7 +111,10 @@ def main(prop, tier="quick", only=None):
         units = [u for u in units if fnmatch.fnmatch(u[0], only)]
     keep = True
     jobs = [(modname, u[1], u[2], active, keep) for u in units]
+    if tier == "thorough" and not os.environ.get("PYVC_NO_CVC5"):
+        os.environ["PYVC_CVC5"] = "1"          # the workers re-discharge every z3-proved vc/lemma with cvc5 (a second solver must not contradict)
     results = run_units(jobs)
+    os.environ.pop("PYVC_CVC5", None)
 
     crashed = [r for r in results if not r["ok"]]
     all_units, obs = [], []
@@ -211,6 +214,21 @@ def main(prop, tier="quick", only=None):
     backends = {}
     for o in obs:
         backends[o.get("backend", "?")] = backends.get(o.get("backend", "?"), 0) + 1
+    cvc5 = {}
+    for o in obs:
+        if "cvc5" in o:
+            cvc5[o["cvc5"]] = cvc5.get(o["cvc5"], 0) + 1
+    # ---- thorough: mutation self-test of this property's checks (an undetected mutant means the check is weaker than it says: undecided)
+    selftest = None
+    if tier == "thorough" and not only and not os.environ.get("PYVC_NO_SELFTEST") and tree_root() == "/repo":
+        import subprocess
+        p_ = subprocess.run([sys.executable, os.path.join(VERIF, "tools", "selftest.py"), prop], capture_output=True, text=True, cwd=VERIF,
+                            env=dict(os.environ, PYVC_NO_SELFTEST="1", PYVC_NO_EVIDENCE="1"))
+        lines = [l for l in p_.stdout.splitlines() if " exit=" in l]
+        missed = [l.split()[0] for l in lines if " MISS" in l]
+        selftest = dict(mutants=len(lines), detected_or_green_as_expected=len(lines) - len(missed), missed=missed)
+        for m_ in missed:
+            vacuity.append("self-test: the edit %s did not give the expected verdict" % m_)
     evidence = dict(
         property_id=prop, tier=tier, seed=seed, level="proof",
         coverage=dict(
@@ -219,7 +237,7 @@ def main(prop, tier="quick", only=None):
             trusted_base=list(getattr(mod, "TRUSTED", [])),
             samples=samples,
             functions_under_contract=sorted(funcs.values(), key=lambda f: f["function"]),
-            by_kind=by_kind, backends=backends,
+            by_kind=by_kind, backends=backends, cvc5_recheck=cvc5 or None, mutation_selftest=selftest,
             solver_seconds=round(sum(o.get("secs", 0.0) for o in obs), 3),
             bounded_standins=[dict(obligation="%s::%s" % (o["unit"], o["label"]), status=o["status"], bound=o.get("bound"), cases=o.get("cases"))
                               for o in other_obs if o["kind"] == "bounded"],
